@@ -1351,7 +1351,9 @@ THEOREMS = ['Props.C05.' + t for t in ['binding_is_modelled', 'column_boundaries
                                     'autough2_adjacent_numbers_merge', 'addressing_agrees', 'reversed_key_row',
                                     'data_line_meaning', 'table_read_TOUGH2', 'cells_equal_printed_table_TOUGH2',
                                     'skip_table_lands_where_read_lands_TOUGH2', 'table_read_AUTOUGH2',
-                                    'skip_table_lands_where_read_lands_AUTOUGH2', 'tables_read_block_TOUGH2']]
+                                    'skip_table_lands_where_read_lands_AUTOUGH2', 'tables_read_block_TOUGH2',
+                                    'tables_read_block_AUTOUGH2', 'set_index_reads_block_AUTOUGH2', 'set_index_reads_block_TOUGH2',
+                                    'setup_table_records_region_AUTOUGH2', 'setup_table_records_region_TOUGH2_partial']]
 LEVEL_TEXT = ('Proof: Lean theorems about the row layer of the reader and listingtable, and their composition over the table-reading loop of the whole-file model: parse_table_line infers exactly the field starts from a line of '
               'right-aligned number fields (column_boundaries_correct; its side conditions are decided on the longest line of every table by a '
               'procedure proved sound, row_format_decidable); read_table_line_TOUGH2 never raises, cell k is fortran_float of columns [b_k,b_k+1) and '
@@ -1369,9 +1371,17 @@ LEVEL_TEXT = ('Proof: Lean theorems about the row layer of the reader and listin
               'All tables of one result block, TOUGH2 family (tables_read_block_TOUGH2): the walk next_table_TOUGH2 (to the KCYC..ITER line, over blank lines, to the next header, table named by its first three words, stop at the end of file or at a KCYC line of the next result block) is proved on lines, '
               'and the loop of read_tables_TOUGH2 over a well-formed block (decidable conditions EntryOk / LinksOk / EndOk; a table the reader holds no table for - in skip_tables or absent at the first time - is skipped to its @@@@@ line) returns, leaves the file behind the block, '
               'every table read holds under the row named by each of its own data lines the row-reader values of that line whatever tables were read or skipped before it, and every table not read keeps its contents (the skip-independence clause, for one block). '
-              'No sorry. Partial: the block theorem starts behind read_header (read_tables_TOUGH2 = read_header; loop is shown, read_header itself is not characterised), excludes a MASS FLOW RATES diffusion block between tables and TOUGH+ (next_table_TOUGHplus, element-table counting), and the AUTOUGH2 block loop is not done; '
-              'not proved are that setup_table_TOUGH2 / setup_table_AUTOUGH2 record a layout for which the printed region is well formed (the link from set-up to TableRegionT / TableRegionA), the composition over all result blocks of a whole file (cells_equal_printed), '
-              'and skip-table independence beyond the file position; '
+              'All tables of one result block, AUTOUGH2 (tables_read_block_AUTOUGH2): read_header_AUTOUGH2 (title line, step and time from the AFTER..TIME STEPS..SECONDS line, one more line), read_table_AUTOUGH2 or skip_table_AUTOUGH2 (tables in skip_tables), and next_table_AUTOUGH2 (the keyword line of the next table) are proved on lines, '
+              'and the loop of read_tables_AUTOUGH2 over a well-formed block (decidable conditions EntryOkA / LinksOkA / EndOkA) returns, leaves the file two lines behind the last terminator, row j of every table read holds the values of its own j-th data line whatever was read or skipped before, tables not read keep their contents, title/step/time are those of the last header. '
+              'Composition through set_index: set_index(i) = seek(fullpos[i]) + index + read_tables is proved to show block i\'s own numbers in every table, for AUTOUGH2 (set_index_reads_block_AUTOUGH2) and for TOUGH2/TOUGH2_MP/TOUGH3/TOUGHREACT (set_index_reads_block_TOUGH2, which also characterises read_header_TOUGH2 on lines: time and step from the first two words, skip to the @@@@@ line, to the first non-blank line with at least four words), '
+              'under the explicit decidable hypothesis that the position recorded in fullpos[i] is the start of a well-formed block whose first table is the element table. '
+              'From set-up to reading: setup_table_AUTOUGH2 run on a printed region (3 lines, column header, 1 line, data lines, terminator; decidable SetupRegionA) stores a table with exactly one row per printed data line keyed by the printed names, leaves the file where reading leaves it, and the same region satisfies TableRegionA for the stored table given only print-level conditions (blank/non-blank layout, one value per column on every data line) (setup_table_records_region_AUTOUGH2); '
+              'setup_table_TOUGH2 run on a region without repeated headers (decidable SegsOkT: data lines separated by at most one blank line, ended by a separator line or blank + separator/title/empty/end of file) records header_skiplines = number of header lines and skiplines = lines behind each data line, leaves the file exactly behind the region, and the region is TableRegionT for the stored table '
+              'PROVIDED every data line\'s key names a stored row and reads one value per column (setup_table_records_region_TOUGH2_partial: that last clause is an explicit decidable hypothesis, not derived). '
+              'No sorry. Partial / not proved: the TOUGH2 set-up link lacks the derivation that rowdict keeps every data line\'s key (distinct printed indices) and that the inferred boundaries give ncols values, and does not cover regions with repeated internal headers; '
+              'the block theorems exclude a MASS FLOW RATES diffusion block between tables, the short-header branch of read_header_TOUGH2 inside set_index (fewer than four words on the first non-blank line; proved only at header level), and TOUGH+ (next_table_TOUGHplus, element-table counting); '
+              'that the positions setup_pos_* record in fullpos are block starts is a hypothesis (decidable on a file), not a theorem, so the whole-file statement cells_equal_printed (open -> every index -> every table) is still not a single theorem, nor is set-up + read composed over setup_tables; '
+              'skip-table independence is proved per block (tables not read keep their contents, tables read get their own region) but not as equality of two whole runs with different skip sets; '
               'the per-simulator method binding is regenerated from the source on every run and the model dispatches through it (binding_is_modelled); the rest is covered by the executable whole-file Lean model of '
               't2listing (all six simulators) compared with the real reader cell for cell (bit-equal doubles) on all 37 shipped files at every result '
               'time and on value-perturbed copies, and by an independent tokenizer oracle on the printed rows.')
